@@ -523,7 +523,7 @@ def _viol(stats, tag, machine, pair, init_i, hist, S, final, diffs):
     cid = '{}/{}/{}/i{}/{}{}'.format(tag, machine, pair.kinds[1], init_i, '>'.join(names),
                                      '' if final is None else '>' + ''.join('%02X' % b for b in final))
     stats.violation(cid, {'part': 'A', 'machine': machine, 'kinds': list(pair.kinds), 'tracer': pair.py.tracer is not None,
-                          'init': init_i, 'hist': list(hist), 'final': final}, '; '.join(diffs[:3]),
+                          'init': init_i, 'hist': list(hist), 'hist_names': names, 'final': final}, '; '.join(diffs[:3]),
                     tags={'part': 'A', 'machine': machine, 'pair': pair.kinds[1], 'last': names[-1] if names else None,
                           'final_b0': final[0] if final else None}, order=len(hist) * 1000 + (0 if final is None else 500))
 
@@ -812,6 +812,10 @@ def replay(case):
     if case['part'] == 'A':
         S = letters_S(machine)
         regs = regs_list(INIT_REGS[case['init']], machine)
+        if case.get('hist_names'):
+            # the run may have used a filtered alphabet (128K without tracer): replay by letter name
+            index = {n: i for i, (n, _) in enumerate(S)}
+            case = dict(case, hist=[-1 if n == 'INT' else index[n] for n in case['hist_names']])
         extra = ((tuple(case['final']),),) if case.get('final') else ()
         d, _ = replay_history(pair, regs, S, tuple(case['hist']), extra, stats)
         return d
